@@ -111,6 +111,10 @@ def _explore(out, tier, seed, facts, replay):
                                   % (g, k, fs, datagen.AXES[ax], ai), {"dataset": ds, "perturbed_input": g, "request": [fs, k, ax, ai]})
         if len(samples) < 2:
             samples.append({"n_inputs": ninp, "has_clim": "clim" in ds["cfg"], "perturbed_input": g})
+    # (4) scores that use several quantities (observation + two threshold probabilities, stored in different orders or
+    #     derived from an ensemble): every input scored on the cases where ALL of them are present in EVERY input
+    import probtie
+    nf += probtie.run(out, rng, 8 if tier == "quick" else 80, "several-quantities")
     stats.update({
         "evaluations": stats["datasets"] + stats["requests"] + nf,
         "distinct_nontrivial": max(len(distinct), 2),
